@@ -164,6 +164,21 @@ def _iteration(ctx: Ctx, c: Collector, holder: str, heap: str) -> None:
     _loop_guard(ctx, c, s, fi, sim, world, cur, POP, STEP)
 
 
+def _fixed_tiers_only(gt, tiers) -> bool:
+    """every reading of `tiers` inside the guard is `tiers[<one position>]` (or `len(tiers)`): no aggregate over the sub-tiers"""
+    fixed = 0
+    for x in T.subterms(gt):
+        if not (isinstance(x, tuple) and tiers in x[1:]):
+            continue
+        if x[0] == "idx" and x[1] == tiers and x[2][0] != "slice":
+            fixed += 1
+        elif x[0] == "call" and x[1] == T.glob("len"):
+            continue
+        else:
+            return False
+    return fixed > 0
+
+
 def _loop_guard(ctx, c, s, fi, sim, world, cur, POP, STEP) -> None:
     bound = ("attr", world, "max_loop_iterations")
     cands = [e for e in s.of_kind("raise") if POP.idx < e.idx < STEP.idx and T.contains(e.guards, bound)] + \
@@ -213,6 +228,12 @@ def _loop_guard(ctx, c, s, fi, sim, world, cur, POP, STEP) -> None:
         pr.append("the guard requires all sub-tiers to exceed the bound (any tier must suffice)")
     elif gt[0] == "not" and gt[1][0] == "agg" and T.contains(gt, bound):
         pr.append("the loop guard is negated: runs abort unless some sub-step counter has reached the bound")
+    elif _fixed_tiers_only(gt, tiers):
+        # every reading of the step's tiers in the guard is one fixed position (tiers[1], tiers[-1], ...): groups nest to any
+        # depth, and the loop counts in the tier of the group that carries the weak connection, which is any of tiers[1:]
+        fixed = sorted({T.show(x) for x in T.find(gt, lambda x: x[0] == "idx" and x[1] == tiers)})
+        pr.append(f"the guard inspects only {', '.join(fixed)} instead of all sub-tiers {T.show(sub)}: a loop that counts in another tier "
+                  "(members nested deeper or shallower than the weak connection's group) is never stopped")
     else:
         verdict_unknown = True
     if not is_simulation_error(ctx, r.term) or not names_sim(r.term, sim):
